@@ -7,6 +7,7 @@
 #       2 broken or inconclusive run (build failure, coverage floor missed).
 set -u
 ROOT=$(cd "$(dirname "$0")" && pwd)
+export VERIF_ROOT="$ROOT"   # evidence/, replay/ and KNOWN_FINDINGS.txt of THIS tree
 export GOFLAGS=-mod=mod GOPROXY=off GOSUMDB=off GOTOOLCHAIN=local CGO_ENABLED=1
 H="$ROOT/harness"
 cp /repo/go.sum "$H/go.sum" 2>/dev/null || true
